@@ -17,6 +17,9 @@ CHECKS = {
  "C04": dict(category="exploration", technique="Hypothesis-generated coordinate hierarchies (depth 1..3) and chunk windows, judged by composing per-level position lists and by re-reading sequence from the root",
    text="Each level is placed on its parent by a 1..3-block location on either strand with sequences extracted from the root; child locations are lifted to every ancestor by type and by sequence identity and compared base-by-base/in order with the composed maps, and their extracted sequence with the root model; chromosome locations are lifted onto chunks (seq_chunk_to_parent), back, and chunk-to-chunk; absent ancestors and misses must be refused/empty.",
    note="Hierarchies built in the idiom of the library's own tests; non-overlapping placements; distinct ids per case.", ref="DESIGN.md §5 C04"),
+ "C05": dict(category="exploration", technique="Hypothesis-generated CDS (layouts x strand x start offset x programmed frameshift x windows) plus exhaustive single-exon window product, judged by an independent reading-frame walk and Biopython's codon table",
+   text="Codon locations as position triples, the fast and cached extraction paths, scan_codons, 12 translate configurations (3 start tables x truncate x strict), start/stop/in-frame-stop predicates, chromosome windows with and without expansion, and construct_frames_from_location, all against one FrameModel walk over the exons.",
+   note="Degenerate corner (skip >= exon length) only checked for self-consistency; windows not touching any codon may be refused. Known finding F6 (single-exon offset arithmetic, pinned by the repository's own tests).", ref="DESIGN.md §5 C05"),
  "C15": dict(category="exploration", technique="exhaustive enumeration of the finite domains against typed-in IUPAC tables and Biopython's NCBI codon tables",
    text="Every element of every finite domain (4096 IUPAC triplets x case, all alphabet letters, frames x shifts in [-30,30], all strand pairs/triples, all biotype names) is enumerated and compared with an independent reference; within those domains this is complete.",
    note="Trusts Biopython CodonTable ids 1/11 and Bio.Seq.complement; IUPAC tables typed into checks/c15.py.", ref="DESIGN.md §5 C15"),
